@@ -2,7 +2,8 @@
 (***************************************************************************)
 (* ProguardRecordIter as a state machine: the only state is `pos`, the     *)
 (* position of the first unconsumed byte of the source.  NextItem is       *)
-(* enabled iff bytes remain; it yields one item (record or error line) and *)
+(* enabled iff bytes other than line terminators remain; it yields one    *)
+(* item (record or error line) and                                         *)
 (* advances past it (MappingSyntax!ParseRecordAt).  Properties of the      *)
 (* machine itself (MC_Stream checks them through Items): pos strictly      *)
 (* increases, so the iterator terminates after at most Len(src) items.     *)
@@ -10,7 +11,8 @@
 EXTENDS Integers, Sequences, MappingSyntax
 
 IterInit == 1
-HasNext(src, pos) == pos <= Len(src)
+\* next() first skips blank lines; nothing but line terminators left = end of the stream
+HasNext(src, pos) == SkipNL(src, pos) <= Len(src)
 \* [item, next]
 NextItem(src, pos) == ParseRecordAt(src, pos)
 Advances(src, pos) == HasNext(src, pos) => NextItem(src, pos).next > pos
